@@ -15,13 +15,13 @@ for m in sorted(glob.glob(os.path.join(here,'seeded','*','meta.json'))):
     caught=[c['property'] for c in d['check_results'] if c['exit']==1]
     silent=[c['property'] for c in d['check_results'] if c['exit']==0]
     inconc=[c['property'] for c in d['check_results'] if c['exit'] not in (0,1)]
-    rows.append((sid,d['breaks_property'],'yes' if d['confirmed_by_us'] else 'NO',', '.join(caught) or '—',', '.join(silent) or '—',', '.join(inconc) or '—',what,d.get('needs_to_manifest','')))
+    rows.append((sid,(d['effective_property']+' (seeded as '+d['breaks_property']+')') if d.get('effective_property') else d['breaks_property'],'yes' if d['confirmed_by_us'] else 'NO',', '.join(caught) or '—',', '.join(silent) or '—',', '.join(inconc) or '—',what,d.get('needs_to_manifest','')))
 out=["# Independently seeded changes and which checks catch them","",
 "Each directory holds `patch.diff` (the change to alusch/flipdot), the demonstration test, the author's `NOTES.md` (what is needed for it to manifest) and `meta.json` (what we ran).",
 "Written by fresh sub-agents that saw only the property text and a scratch worktree; confirmed by `seeded/verify.sh` (demo fails with the patch and passes without it, the existing suite passes with it); then applied to /repo, the quick checks run, and undone.","",
 "| seed | property | confirmed | checks that report a VIOLATION | checks run that stay silent | inconclusive | the change | what it needs to manifest |","|---|---|---|---|---|---|---|---|"]
 for r in rows: out.append("| %s | %s | %s | %s | %s | %s | %s | %s |"%r)
-missed=[r for r in rows if r[1] not in r[3].split(', ')]
+missed=[r for r in rows if r[1].split(' ')[0] not in r[3].split(', ')]
 out+=["","Seeds not caught by the check of the property they target: %s"%(', '.join(r[0] for r in missed) or 'none'),""]
 open(os.path.join(here,'seeded','README.md'),'w').write('\n'.join(out))
 print('seeded/README.md:',len(rows),'seeds;',len(missed),'missed by own property check')
